@@ -38,6 +38,11 @@ def known_class(stream):
     return (F10_FP, F10_WHAT) if stream.startswith("join") else (F6_FP, F6_WHAT)
 
 
+def corpus_for(stream, fname):
+    """corpus files are named <stream>.<case>.ops; `join.` must not pick up `joinm.` / `joinr.` files"""
+    return fname.startswith(stream + ".") and fname.endswith(".ops")
+
+
 def run_pair(ctx, stream, ops_path, tag):
     """exec on the real krt (writes impl + trace), then the Lean driver on the trace."""
     impl = os.path.join(ctx.work, "%s.%s.impl" % (stream, tag))
@@ -263,6 +268,7 @@ def run(ctx):
     run_stream(ctx, "krtf6", ctx.n(400, 8000))
     run_stream(ctx, "join", ctx.n(1200, 60000))
     run_stream(ctx, "joinr", ctx.n(300, 6000))
+    run_stream(ctx, "joinm", ctx.n(600, 15000))
     run_stream(ctx, "mem", ctx.n(600, 15000))
     # last: the exact correspondence of the runtime model (a difference here with no violation above ends as
     # `no-failing-input-found`)
